@@ -42,6 +42,7 @@ SRCS = {
     'phash': (2, True), 'phashref': (2, False),
     'pclonedad': (2, False), 'pcopiedad': (2, False), 'pclonedit': (2, False),
     'pconvec': (2, True), 'pconslice': (2, False), 'pconrange': (2, False), 'pconiter': (2, True), 'pconiterpar': (2, True),
+    'pconvecpre': (2, True), 'pconslicepre': (2, False), 'pconrangepre': (2, False), 'pconiterpre': (2, True), 'pconiterparpre': (2, True),
     'pbtreemap': (2, False), 'pbtreemapref': (2, False), 'phashmap': (2, False), 'phashmapref': (2, False),
 }
 # sources whose constructor returns an opaque `impl Par` (no ParEmpty, no *_with_index): generic visitor path
@@ -52,7 +53,9 @@ SRC_ENUM = {'svec': 'SVec', 'siter': 'SIter', 'pvec': 'PVec', 'piter': 'PIter', 
             'pbtreeref': 'PBTreeRef', 'pheap': 'PHeap', 'pheapref': 'PHeapRef', 'phash': 'PHash', 'phashref': 'PHashRef',
             'pclonedad': 'PClonedAd', 'pcopiedad': 'PCopiedAd', 'pclonedit': 'PClonedIt', 'pconvec': 'PConVec', 'pconslice': 'PConSlice',
             'pconrange': 'PConRange', 'pconiter': 'PConIter', 'pconiterpar': 'PConIterPar', 'pbtreemap': 'PBTreeMap',
-            'pbtreemapref': 'PBTreeMapRef', 'phashmap': 'PHashMap', 'phashmapref': 'PHashMapRef'}
+            'pbtreemapref': 'PBTreeMapRef', 'phashmap': 'PHashMap', 'phashmapref': 'PHashMapRef',
+            'pconvecpre': 'PConVecPre', 'pconslicepre': 'PConSlicePre', 'pconrangepre': 'PConRangePre',
+            'pconiterpre': 'PConIterPre', 'pconiterparpre': 'PConIterParPre'}
 
 
 def chains():
